@@ -68,7 +68,7 @@ class C02(Sim):
     assumptions = [
         "Function terms that read an output variable's value are excluded (the replicas differ by construction there)",
         "a size-1 value / fuzzy value on the batch side stands for every row of the segment (NumPy broadcasting; observation D4)",
-        f"relative differences <= {ULP_REL} of values and of printed fuzzy-value degrees (or one unit of the 3rd printed decimal) are tolerated and counted (probes ulp_noise, ulp_noise_fuzzy): NumPy's scalar and array loops of pow differ in the last bit for some arguments",
+        "values and fuzzy values are compared bit for bit (canonical floats: NaN == NaN, -0.0 == 0.0); the last-bit allowance of earlier versions is gone: after repair D7 it had not fired once in 96 000 quick runs, every difference it had ever tolerated was D7",
         "previous_value is not compared (legitimately differs between a k-row batch and k single rows)",
     ]
     real_vs_stub = {"both replicas: Engine, variables, terms, norms, hedges, rules, activation, defuzzifiers": "real",
@@ -89,7 +89,7 @@ class C02(Sim):
         if rng.random() < (0.004 if tier == "quick" else 0.01):
             yield self._huge_case(rng)
             return
-        sp = S.gen_spec(rng, activations=["General"], fn_reads_output=False, norm_functions=True, user_terms=["DomainRamp", "InputGain"])
+        sp = S.gen_spec(rng, activations=S.GENERAL, fn_reads_output=False, norm_functions=True, user_terms=["DomainRamp", "InputGain"])
         r0 = rng.random()
         if r0 < 0.06:
             S.make_hybrid_output(rng, sp)
@@ -156,7 +156,7 @@ class C02(Sim):
         elements) on a small engine with lock-previous on, NaN runs placed across the multiples of 8192 and at the
         ends. The reference replica is fed in sub-batches of 61 rows (row-by-row would cost seconds); by the property
         every segmentation equals row-by-row processing, so a difference between two segmentations is a violation."""
-        sp = S.gen_spec(rng, activations=["General"], fn_reads_output=False, max_inputs=1, max_outputs=1, max_blocks=1, max_rules=3,
+        sp = S.gen_spec(rng, activations=S.GENERAL, fn_reads_output=False, max_inputs=1, max_outputs=1, max_blocks=1, max_rules=3,
                         depth=1, disabled=0.0, mixed_types=0.0)
         o = sp["outputs"][0]
         o["lock_previous"] = True
@@ -429,24 +429,16 @@ class C02(Sim):
                         viol = Violation("row_output_is_not_scalar", i, output=j, row=r, size=len(bv))
                         break
                     if a_val[r] != bv[0]:
-                        if close_enough((a_val[r],), bv, ULP_REL):
-                            st.hit("probes.ulp_noise")
-                        elif degrees_close_not_equal(a_deg_j, b_deg[r][j], r, k):
-                            # the activation degrees themselves differ in the last bit: a discontinuous defuzzifier
-                            # (maxima, bisector, 0 * inf) may amplify that; not a mode-dependent divergence of the library
-                            st.hit("probes.ulp_noise_amplified_by_defuzzifier")
-                        else:
-                            viol = Violation("batch_value_differs_from_row_value", i, output=j, row=r, rows=k, batch=a_val[r],
-                                             single=bv[0], setter=setter, defuzzifier=(sp["outputs"][j]["defuzzifier"] or {"cls": "None"})["cls"])
-                            break
+                        # "the same output values": bit for bit (canonical floats: NaN == NaN, -0.0 == 0.0). A last-bit difference
+                        # is reported like any other; `last_bit` only says how large it is (see DESIGN 9.4, "noise" that was D7)
+                        viol = Violation("batch_value_differs_from_row_value", i, output=j, row=r, rows=k, batch=a_val[r],
+                                         single=bv[0], setter=setter, defuzzifier=(sp["outputs"][j]["defuzzifier"] or {"cls": "None"})["cls"],
+                                         last_bit=bool(close_enough((a_val[r],), bv, ULP_REL) or degrees_close_not_equal(a_deg_j, b_deg[r][j], r, k)))
+                        break
                     if a_fuz[r] != bf[0]:
-                        # the printed fuzzy value may differ only where the underlying degrees differ in the last bit
-                        if degrees_close_not_equal(a_deg_j, b_deg[r][j], r, k):
-                            st.hit("probes.ulp_noise_fuzzy")
-                        else:
-                            viol = Violation("batch_fuzzy_value_differs_from_row", i, output=j, row=r, rows=k, batch=a_fuz[r],
-                                             single=bf[0], setter=setter)
-                            break
+                        viol = Violation("batch_fuzzy_value_differs_from_row", i, output=j, row=r, rows=k, batch=a_fuz[r],
+                                         single=bf[0], setter=setter, last_bit=bool(degrees_close_not_equal(a_deg_j, b_deg[r][j], r, k)))
+                        break
                 if viol:
                     break
                 line.append(",".join(a_val))
@@ -469,11 +461,9 @@ class C02(Sim):
                     for r in range(k):
                         want = tuple(b_vals[r][j][0] for j in range(len(A.output_variables)))
                         got = cv(mat[r])
-                        if got != want and got != b_mat[r] and not close_enough(got, want, ULP_REL):
-                            if not any(degrees_close_not_equal([(a.term.name, bcast(cv(a.degree), k)) for a in ov.fuzzy.terms], b_deg[r][j], r, k)
-                                       for j, ov in enumerate(A.output_variables)):
-                                viol = Violation("engine_output_matrix_differs_from_rows", i, row=r, rows=k, got=list(got), expected=list(want))
-                                break
+                        if got != want and got != b_mat[r]:
+                            viol = Violation("engine_output_matrix_differs_from_rows", i, row=r, rows=k, got=list(got), expected=list(want))
+                            break
             if viol is None:
                 # probes on the cascade (computed from the agreed values)
                 for j, ov in enumerate(A.output_variables):
